@@ -400,6 +400,6 @@ pub fn def() -> PropertyDef {
             "perturbations the verifier refuses before drawing the affected challenge (inconsistent batch, out-of-range promise) are not compared".into(),
         ],
         exhaustive: false,
-        subs: vec![fs_sub::<F>((300, 10_000)), fs_sub::<R>((40, 1200))],
+        subs: vec![fs_sub::<F>((1500, 20_000)), fs_sub::<R>((200, 2500))],
     }
 }
